@@ -279,7 +279,7 @@ def post_command_format(fe, rec, verb, prefix, clock_now_ms=None):
                 svv = bytes(Component.get_value(sv_c))
                 assert svv[0] == 0x17 and svv[1] == len(svv) - 2 == 32
                 good = si.signature_type == SignatureType.DIGEST_SHA256 and hashlib.sha256(b''.join(name[:8])).digest() == svv[2:]
-            except Exception as e:
+            except Exception:
                 good = False
             if not good:
                 out.append(('C17:command-signature:legacy', 'SignatureInfo/SignatureValue components are not a DigestSha256 over the preceding components'))
@@ -651,7 +651,82 @@ def run_codec(case):
     return v
 
 
+# ---------------------------------------------------------------- status datasets: encode -> parse gives the fields back
+DATASETS = ('GeneralStatus', 'FaceStatusMsg', 'FaceQueryFilter', 'RibStatus', 'FibStatus', 'StrategyChoiceMsg', 'CsInfo',
+            'FaceEventNotification', 'ControlParameters', 'ControlResponse')
+
+
+def _build_model(cls, rng, depth=0):
+    from enum import Enum, Flag
+    from ndn.encoding import UintField, BytesField, NameField, ModelField, RepeatedField
+    m = cls()
+    for f in cls._encoded_fields:
+        if rng.random() < 0.25 and depth > 0:
+            continue
+        if isinstance(f, UintField):
+            bt = f.val_base_type
+            if isinstance(bt, type) and issubclass(bt, Flag):
+                members = list(bt)
+                val = bt(0)
+                for mem in members:
+                    if rng.random() < 0.5:
+                        val |= mem
+            elif isinstance(bt, type) and issubclass(bt, Enum):
+                val = rng.choice(list(bt))
+            else:
+                val = rng.choice((0, 1, 255, 256, 65535, 65536, 2 ** 32 - 1, 2 ** 32, 2 ** 64 - 1, rng.randrange(2 ** 40)))
+            setattr(m, f.name, val)
+        elif isinstance(f, BytesField):
+            setattr(m, f.name, rng.choice(('', 'udp4://192.0.2.1:6363', 'NFD 22.12-ü', 'x' * 260)) if f.is_string
+                    else bytes(rng.randrange(256) for _ in range(rng.randrange(5))))
+        elif isinstance(f, NameField):
+            setattr(m, f.name, Name.normalize(rng.choice(PREFIXES + ('/localhost/nfd/strategy/best-route/v=5',))))
+        elif isinstance(f, ModelField):
+            setattr(m, f.name, _build_model(f.model_type, rng, depth + 1))
+        elif isinstance(f, RepeatedField) and isinstance(f.element_type, ModelField):
+            setattr(m, f.name, [_build_model(f.element_type.model_type, rng, depth + 1) for _ in range(rng.randrange(4))])
+    return m
+
+
+def _canon(m):
+    from enum import Enum
+    from ndn.encoding import TlvModel
+    if isinstance(m, TlvModel):
+        return {f.name: _canon(f.get_value(m)) for f in type(m)._encoded_fields}
+    if isinstance(m, list):
+        if m and isinstance(m[0], (bytes, bytearray, memoryview)):
+            return ['name', Name.to_str(m)]
+        return [_canon(x) for x in m]
+    if isinstance(m, (bytes, bytearray, memoryview)):
+        return bytes(m).hex()
+    if isinstance(m, Enum):
+        return m.value
+    return m
+
+
+def run_dataset(case):
+    cls = getattr(nfd_mgmt, case['model'])
+    m = _build_model(cls, random.Random(case['seed']))
+    key = f"C17:status-dataset-roundtrip:{case['model']}"
+    try:
+        wire = bytes(m.encode())
+        back = cls.parse(wire)
+        again = bytes(back.encode())
+    except Exception as e:
+        return [(key, f'{case["model"]} (seed {case["seed"]}): encode/parse raised {type(e).__name__}: {e} @ {where(e)}')]
+    a, b = _canon(m), _canon(back)
+    if a != b:
+        diff = [k for k in a if a[k] != b.get(k)]
+        return [(key, f'{case["model"]} (seed {case["seed"]}): decoded fields differ from the encoded ones in {diff[:4]}: '
+                      f'{[(k, a[k], b.get(k)) for k in diff[:2]]}')]
+    if again != wire:
+        return [(key, f'{case["model"]} (seed {case["seed"]}): re-encoding the decoded value gives different bytes')]
+    return []
+
+
 def run_case(case):
+    if case['family'] == 'dataset':
+        return run_dataset(case)
     return {'single': run_single, 'stubapp': run_stubapp, 'concurrent': run_concurrent, 'connect': run_connect,
             'codec': run_codec}[case['family']](case)
 
@@ -728,12 +803,18 @@ def cases(tier, rng):
                    fields=_rand_fields(rng, full=(i % 25 == 0)))
 
 
+def all_cases(tier, rng):
+    yield from cases(tier, rng)
+    for i in range(300 if tier == 'quick' else 20000):
+        yield dict(family='dataset', model=DATASETS[i % len(DATASETS)], seed=rng.randrange(2 ** 31))
+
+
 def run(tier='quick', seed=0, shard=(0, 1)):
     rng = random.Random(seed * 1000)
-    return drive(MODULE, cases(tier, rng), run_case, shard,
+    return drive(MODULE, all_cases(tier, rng), run_case, shard,
                  rule='simulated forwarder: (front-end x verb x prefix x 20 replies) + 4 documented failures on a stub application + '
-                      'concurrent calls (size x verb mix x 5 clock scripts x reply delay x reply mix) + auto-registration (routes declared '
-                      'before/while connected x outcomes x connections) + random control-parameter / response round trips; '
+                      'concurrent calls (size x verb mix x 6 fixed + random clock scripts x reply delay x reply mix) + auto-registration (routes declared '
+                      'before/while connected x outcomes x connections) + random control-parameter / response / status-dataset round trips; '
                       'distinct by the case tuple, all cases non-trivial',
                  bound='<= 16 concurrent calls, <= 4 routes, <= 3 connections, one forwarder, virtual clock; replies limited to the 20 listed kinds',
                  exhaustive=False)
